@@ -593,6 +593,8 @@ func main() {
 					r.Violation("panic:"+f.m.name, fmt.Sprintf("panic while processing mutant %s (resealed=%v) on path %v shape %d: %s", f.m.name, f.resealed, path, k, pan), c)
 					n.Close()
 					n, _ = node.BuildPath(cfg, path)
+					p.n = n
+					s0 = take(n)
 					continue
 				}
 				r.Add("transitions", 1)
@@ -618,6 +620,7 @@ func main() {
 					}
 					p.n = n
 					n.DrainEvents()
+					s0 = take(n)
 					continue
 				}
 				s1 := take(n)
@@ -628,6 +631,7 @@ func main() {
 					n.Close()
 					n, _ = node.BuildPath(cfg, path)
 					p.n = n
+					s0 = take(n)
 				}
 			}
 			// finally V itself must be accepted (on the possibly rebuilt node) and then removed again
@@ -636,8 +640,11 @@ func main() {
 			} else {
 				r.Add("valid_blocks_accepted", 1)
 				r.Add("transitions", 1)
-				_ = n.Exec.VerifDeleteBlock(n.Tip(), false)
-				n.DrainEvents()
+			}
+			// back to the canonical state of this path (deleting would leave the grown finalized marker behind)
+			n.Close()
+			if n, err = node.BuildPath(cfg, path); err != nil {
+				return
 			}
 		}
 		if i%37 == 0 {
